@@ -307,6 +307,8 @@ def _all_bytes(snap):
     out = []
 
     def walk(t):
+        if isinstance(t, tuple) and t and t[0] == "sym":
+            return None      # bytes in the description of an unknown value are not the value's bytes
         if isinstance(t, tuple):
             if t and t[0] == "bytes":
                 out.append(t[1])
